@@ -141,8 +141,9 @@ def explain_comparison_failure(ctx: Ctx, inst, d, st):
 
 
 def pctdiff_sqlite_integer_witness(ctx: Ctx):
-    """Dedicated replay of the finding proved as C16_percentage_difference_sqlite_integers_refuted:
-    INTEGER columns on SQLite make `/` an integer division."""
+    """Regression witness of the former finding KF-C16-pctdiff-sqlite-integer-division (fixed by splink 89a1dbc7, theorem
+    C16_percentage_difference_old_term_sqlite_integers_refuted): INTEGER columns 3 vs 9 at threshold 0.1 on the real SQLiteAPI
+    must NOT satisfy the level (documented percentage difference 2/3)."""
     import splink.comparison_level_library as cll
     from harness import splink_util as su
     sql = cll.PercentageDifferenceLevel("amount", 0.1).get_comparison_level("sqlite").sql_condition
@@ -150,14 +151,14 @@ def pctdiff_sqlite_integer_witness(ctx: Ctx):
     con.execute('CREATE TABLE w ("amount_l" INTEGER, "amount_r" INTEGER)')
     con.execute("INSERT INTO w VALUES (3, 9)")
     got = list(con.execute(f"SELECT ({sql}) AS v FROM w").fetchall()[0].values())[0]
-    reproduced = bool(got)
     ctx.cov["pctdiff_sqlite_integer_witness"] = {"sql": sql, "row": [3, 9], "engine": got, "documented": False}
-    if reproduced:
+    ctx.count_case(("pctdiff_witness", sql), True, None)
+    ctx.obligation("PercentageDifferenceLevel on SQLite INTEGER columns 3 vs 9 @ 0.1 is not satisfied (real division)", not got)
+    if got:
         ctx.violation("PercentageDifferenceLevel on SQLite with INTEGER columns: integer division makes 3 vs 9 pass a 10% threshold",
                       {"case": {"dialect": "sqlite", "level": "PercentageDifferenceLevel:0.1", "row": {"amount": [3, 9]}, "column_type": "INTEGER", "sql": sql},
                        "implementation": True, "specification": False},
                       {"dialect": "sqlite", "level": "PercentageDifferenceLevel", "integer_columns": True})
-    ctx.expect_known("KF-C16-pctdiff-sqlite-integer-division", reproduced, "SQLite no longer truncates the percentage difference of INTEGER columns")
 
 
 def damerau_variant_probe(ctx: Ctx):
